@@ -619,15 +619,10 @@ fn relations(rep: &mut Report, rng: &mut Rng, store: &AnnotationStore, model: &M
         // meaning, item by item (annotation.resources() follows annotation selectors; the text of an annotation is the text of its selection, or of its selections joined with a space)
         {
             let scan: Option<Result<BTreeSet<Row>, Panic>> = match (rt, c) {
+                // (from the shadow model: the resources an annotation reaches through its target, following annotation selectors)
                 (Type::Annotation, CS::Res(id, meta)) => store.resource(id.as_str()).map(|res| {
-                    let h = res.handle();
-                    guard(|| {
-                        store
-                            .annotations()
-                            .filter(|a| if *meta { a.resources_as_metadata().any(|r| r.handle() == h) } else { a.resources().any(|r| r.handle() == h) })
-                            .map(|a| vec![format!("annotation:{}", a.handle().as_usize())])
-                            .collect()
-                    })
+                    let h = res.handle().as_usize();
+                    Ok(model.anns.values().filter(|a| model.sel_resources(&a.target, *meta, 0).contains(&h)).map(|a| vec![format!("annotation:{}", a.handle)]).collect())
                 }),
                 (Type::Annotation, CS::Text(t, nocase)) => Some(guard(|| {
                     store
